@@ -25,5 +25,5 @@ def run(chk, replay=None):
                          "in-place edits, replacement + carry-in / track, touch + track --recheck-method, and plain rechecks after deletion (stored "
                          "method); 4 algorithms, 3 text-or-binary modes, 4 configured default methods; odd histories parallel, even --no-parallel; "
                          "`xvc file list` after every recheck. non-trivial = one path is materialised in >= 2 different kinds; distinct by whole history"),
-                   theorems="method_materialises_recheck / method_materialises_track / copy_independent / method_change_replaces_entry / stored_method_used_next_time",
+                   theorems="method_materialises_recheck(_x) / method_materialises_track / method_materialises_track_all / C17_duplicates_full_fixed / track_method_unchanged_fixed / copy_independent / method_change_replaces_entry / stored_method_used_next_time",
                    list_kinds=("recheck",))
